@@ -12,6 +12,7 @@ import JanetModel.Int64.LemmasQ
 import JanetModel.Int64.LemmasC
 import JanetModel.Int64.IeeeQ
 import JanetModel.Int64.IeeeInt
+import JanetModel.Int64.MathQ
 namespace JanetModel.Props.C14
 open JanetModel.Int64 JanetModel.Gen.Int64
 
@@ -603,6 +604,64 @@ theorem vm_number_handlers (c : Cfg) (N : NumOps) (a b : Nat) :
     vmOp c N "bitop" "&" (.num a) (.num b) = bitop32 false "&" a b ∧ vmOp c N "bitopu" ">>" (.num a) (.num b) = bitop32 true ">>" a b :=
   ⟨rfl, rfl, rfl, rfl, rfl, rfl, rfl⟩
 
+/-! ## math.c: `math/gcd`, `math/lcm`, `math/floor` `ceil` `trunc` `abs` on plain numbers (model `Int64/MathFns.lean`; the bodies of
+`janet_gcd` / `janet_lcm` / the cfuns / the MATHOP macros are matched structurally by the translator, registrations regenerated: `math_registrations_ok`) -/
+
+open JanetModel.Int64.Ieee in
+/-- ★ Euclid's loop of `janet_gcd` (`while (y != 0) { t = y; y = fmod(x, y); x = t; }`) on two finite doubles **terminates**
+    (the model's fuel `scaledMag y + 1` is never exhausted) and returns a finite double; counted in units of 2^-1074 (every finite
+    binary64 is an integer multiple of it) its magnitude is `Nat.gcd` of the operands' magnitudes — for *all* finite doubles,
+    because C `fmod` is exact (`num_rem_is_exact_fmod`) -/
+theorem math_gcd_terminates_and_is_gcd (a b : Nat) (ha : FinBits a) (hb : FinBits b) :
+    (∃ r, gcdLoop (scaledMag b + 1) a b = some r ∧ janetGcd a b = r) ∧
+    FinBits (janetGcd a b) ∧ scaledMag (janetGcd a b) = Nat.gcd (scaledMag a) (scaledMag b) := by
+  obtain ⟨r, hr, _, _⟩ := gcdLoop_spec (scaledMag b + 1) a b ha hb (by omega)
+  refine ⟨⟨r, hr, ?_⟩, janetGcd_finite a b ha hb⟩
+  obtain ⟨n1, m1, e1, h1⟩ := ha
+  obtain ⟨n2, m2, e2, h2⟩ := hb
+  unfold janetGcd; rw [h1, h2]; simp only []; rw [hr]; rfl
+
+open JanetModel.Int64.Ieee in
+/-- ★ `(math/gcd x y)` on integer-valued doubles of any magnitude: an integer-valued double of magnitude `Int.gcd x y`;
+    `(math/lcm x y)` for |x| ≤ 2^53, not both zero, lcm ≤ 2^53: an integer-valued double of magnitude `Int.lcm x y`;
+    NaN operands give NaN, an infinite operand gives +infinity -/
+theorem math_gcd_lcm_on_integers (a b : Nat) (x y : ℤ) (ha : IntVal a x) (hb : IntVal b y) :
+    (∃ g : ℤ, IntVal (janetGcd a b) g ∧ g.natAbs = Int.gcd x y) ∧
+    (|x| ≤ 9007199254740992 → (x ≠ 0 ∨ y ≠ 0) → Int.lcm x y ≤ 9007199254740992 →
+      ∃ l : ℤ, IntVal (janetLcm a b) l ∧ l.natAbs = Int.lcm x y) ∧
+    (∀ c d, ((decode c = .nan ∨ decode d = .nan) → janetGcd c d = nanBits) ∧
+      (decode c ≠ .nan → decode d ≠ .nan → ((∃ s, decode c = .inf s) ∨ (∃ s, decode d = .inf s)) → janetGcd c d = infBits)) :=
+  ⟨janetGcd_int a b x y ha hb, fun hx hne hl => janetLcm_int a b x y ha hb hx hne hl, fun c d => janetGcd_special c d⟩
+
+open JanetModel.Int64.Ieee in
+/-- ★ `math/floor`, `math/ceil`, `math/trunc`, `math/abs` of a finite double: finite doubles with the mathematical value
+    ⌊x⌋, ⌈x⌉, x rounded toward zero, |x| (nothing is rounded: these are exact functions of a binary64) -/
+theorem math_integer_valued_functions (a : Nat) (ha : FinBits a) :
+    (FinBits (Ieee.floor a) ∧ valQ (Ieee.floor a) = ((⌊valQ a⌋ : ℤ) : ℚ)) ∧
+    (FinBits (Ieee.ceil a) ∧ valQ (Ieee.ceil a) = ((⌈valQ a⌉ : ℤ) : ℚ)) ∧
+    (FinBits (Ieee.trunc a) ∧ valQ (Ieee.trunc a) = ((truncQ (valQ a) : ℤ) : ℚ)) ∧
+    (a < 18446744073709551616 → FinBits (fabs a) ∧ valQ (fabs a) = |valQ a|) :=
+  ⟨floor_exact a ha, ceil_exact a ha, trunc_exact a ha, fun h => fabs_exact a ha h⟩
+
+open JanetModel.Int64.Ieee in
+/-- the cfuns: one (two) number argument(s), anything else is `janet_getnumber`'s "bad slot" / the arity error -/
+theorem math_cfuns (a b : Nat) (v : Val) (hv : isNum v = none) :
+    mathFn "math/gcd" [.num a, .num b] = some (.ok (.num (janetGcd a b))) ∧ mathFn "math/lcm" [.num a, .num b] = some (.ok (.num (janetLcm a b))) ∧
+    mathFn "math/floor" [.num a] = some (.ok (.num (Ieee.floor a))) ∧ mathFn "math/ceil" [.num a] = some (.ok (.num (Ieee.ceil a))) ∧
+    mathFn "math/trunc" [.num a] = some (.ok (.num (Ieee.trunc a))) ∧ mathFn "math/round" [.num a] = some (.ok (.num (Ieee.round a))) ∧
+    mathFn "math/abs" [.num a] = some (.ok (.num (fabs a))) ∧
+    mathFn "math/gcd" [v, .num b] = some (.err .badslot) ∧ mathFn "math/gcd" [.num a] = some (.err .arity) := by
+  refine ⟨rfl, rfl, rfl, rfl, rfl, rfl, rfl, ?_, rfl⟩
+  cases v <;> first | rfl | (simp [isNum] at hv)
+
+open JanetModel.Int64.Ieee in
+/-- non-vacuity: `(math/gcd 12 -18)`: magnitude 6; `(math/lcm 4 6)`: magnitude 12 -/
+example : (∃ g : ℤ, IntVal (janetGcd (encodeInt 12) (encodeInt (-18))) g ∧ g.natAbs = 6) ∧
+    (∃ l : ℤ, IntVal (janetLcm (encodeInt 4) (encodeInt 6)) l ∧ l.natAbs = 12) := by
+  have h := math_gcd_lcm_on_integers _ _ 12 (-18) (intVal_encodeInt _ (by decide)) (intVal_encodeInt _ (by decide))
+  have h2 := math_gcd_lcm_on_integers _ _ 4 6 (intVal_encodeInt _ (by decide)) (intVal_encodeInt _ (by decide))
+  exact ⟨h.1, h2.2.1 (by decide) (by decide) (by decide)⟩
+
 /-! ## conversions back: int/to-number, int/to-bytes -/
 
 /-- `(double) n` is exact for |n| ≤ 2^53: decoding the produced bit pattern gives n back -/
@@ -748,6 +807,13 @@ theorem primitive_order_s64_u64_is_by_type (c : Cfg) (a b : Int) :
     janetCompare c (.u64 b) (.s64 a) = (if c.s64BelowU64 then 1 else -1) ∧
     (∀ n, janetCompare c (.num n) (.s64 a) = -1 ∧ janetCompare c (.s64 a) (.num n) = 1) := by
   refine ⟨rfl, rfl, fun n => ⟨rfl, rfl⟩⟩
+
+/-- ★ math.c of the current source registers each modelled name to the function the model implements: `math/floor` → libm `floor`,
+    `math/ceil` → `ceil`, `math/trunc` → `trunc`, `math/round` → `round`, `math/abs` → `fabs` (through the MATHOP macros),
+    `math/gcd` → `janet_gcd`, `math/lcm` → `janet_lcm` (list regenerated from the source on every run) -/
+theorem math_registrations_ok :
+    mathReg = [("math/abs", "fabs"), ("math/ceil", "ceil"), ("math/floor", "floor"), ("math/gcd", "janet_gcd"), ("math/lcm", "janet_lcm"),
+               ("math/round", "round"), ("math/trunc", "trunc")] := by decide
 
 /-- the method tables of the current source: every binary operator has its reversed variant bound to the function with
     swapped operands (non-commutative operators) or to the same function (commutative ones); no reversed shift methods;
